@@ -249,6 +249,17 @@ int jwt_base64uri_encode(char **_dst, const char *plain, int plain_len)
 	return i;
 }
 
+/* An algorithm is only ever evaluated with a key of its own family. */
+static int __check_key_type(jwt_t *jwt, jwk_key_type_t kty)
+{
+	if (jwt->key->kty == kty)
+		return 0;
+
+	jwt_write_error(jwt, "JWT[libjwt]: Incompatible key for algorithm");
+
+	return 1;
+}
+
 static int __check_hmac(jwt_t *jwt)
 {
 	int key_bits = jwt->key->bits;
@@ -256,21 +267,21 @@ static int __check_hmac(jwt_t *jwt)
 	switch (jwt->alg) {
 	case JWT_ALG_HS256:
 		if (key_bits >= 256)
-			return 0;
+			return __check_key_type(jwt, JWK_KEY_TYPE_OCT);
 		jwt_write_error(jwt, "Key too short for HS256: %d bits",
 				key_bits);
 		break;
 
 	case JWT_ALG_HS384:
 		if (key_bits >= 384)
-			return 0;
+			return __check_key_type(jwt, JWK_KEY_TYPE_OCT);
 		jwt_write_error(jwt, "Key too short for HS384: %d bits",
 				key_bits);
 		break;
 
 	case JWT_ALG_HS512:
 		if (key_bits >= 512)
-			return 0;
+			return __check_key_type(jwt, JWK_KEY_TYPE_OCT);
 		jwt_write_error(jwt, "Key too short for HS512: %d bits",
 				key_bits);
 		break;
@@ -296,14 +307,14 @@ static int __check_key_bits(jwt_t *jwt)
 	case JWT_ALG_PS384:
 	case JWT_ALG_PS512:
 		if (key_bits >= 2048)
-			return 0;
+			return __check_key_type(jwt, JWK_KEY_TYPE_RSA);
 		jwt_write_error(jwt, "Key too short for RSA algs: %d bits",
 				key_bits);
 		break;
 
 	case JWT_ALG_EDDSA:
 		if (key_bits == 256 || key_bits == 456)
-			return 0;
+			return __check_key_type(jwt, JWK_KEY_TYPE_OKP);
 		jwt_write_error(jwt, "Key needs to be 256 or 456 bits: %d bits",
 				key_bits);
 		break;
@@ -311,21 +322,21 @@ static int __check_key_bits(jwt_t *jwt)
 	case JWT_ALG_ES256K:
 	case JWT_ALG_ES256:
 		if (key_bits == 256)
-			return 0;
+			return __check_key_type(jwt, JWK_KEY_TYPE_EC);
 		jwt_write_error(jwt, "Key needs to be 256 bits: %d bits",
 				key_bits);
 		break;
 
 	case JWT_ALG_ES384:
 		if (key_bits == 384)
-			return 0;
+			return __check_key_type(jwt, JWK_KEY_TYPE_EC);
 		jwt_write_error(jwt, "Key needs to be 384 bits: %d bits",
 				key_bits);
 		break;
 
 	case JWT_ALG_ES512:
 		if (key_bits == 521)
-			return 0;
+			return __check_key_type(jwt, JWK_KEY_TYPE_EC);
 		jwt_write_error(jwt, "Key needs to be 521 bits: %d bits",
 				key_bits);
 		break;
@@ -465,6 +476,11 @@ static int _verify_sha_hmac(jwt_t *jwt, const char *head,
 	char_auto *buf = NULL;
 	unsigned int res_len;
 	int ret;
+
+	/* Only an octet key can have made an HMAC: anything else is a plain
+	 * verification failure. */
+	if (jwt->key->kty != JWK_KEY_TYPE_OCT)
+		return 1;
 
 	ret = jwt_sign(jwt, &res, &res_len, head, head_len);
 	if (ret)
